@@ -192,17 +192,20 @@ func TestC19Conc(t *testing.T) {
 	rec := vk.New("C19", "conc")
 	defer rec.Finish(t)
 	rec.Rule("case = (ids) 16 goroutines creating ids for a few ssids concurrently: uniqueness by set, order by an atomic ticket drawn before/after each call (created-after => sorts before, same ssid); " +
-		"(peer) a real cluster.Peer over a recording sender with its ticker cancelled, 2-16 sender goroutines and exactly one flusher goroutine calling the queue processor at seeded instants; after joining and one final flush the recorder must hold, per sender goroutine, exactly its messages in order, once each; " +
+		"(peer) a real cluster.Peer over a recording sender with its ticker cancelled, 2-16 sender goroutines and exactly one flusher goroutine calling the queue processor at seeded instants; after joining and one final flush the recorder must hold, per sender goroutine, exactly its messages in order, once each; (encode) 8-24 goroutines round-tripping their own 100-400-message frames through the shared encoder pool at the same time; " +
 		"non-trivial = every case; distinct = hash of (kind, parameters, frames seen)")
-	n := vk.N(30, 1200)
+	n := vk.N(20, 1200)
 	for ci := 0; ci < n; ci++ {
 		if !vk.Mine(ci) {
 			continue
 		}
 		r := vk.NewRand(vk.Seed(), "C19conc", ci)
-		if ci%3 == 0 {
+		switch ci % 4 {
+		case 0:
 			c19IDs(rec, ci, r)
-		} else {
+		case 3:
+			c19EncodeConc(rec, ci, r)
+		default:
 			c19Peer(rec, ci, r)
 		}
 	}
@@ -210,7 +213,7 @@ func TestC19Conc(t *testing.T) {
 
 func c19IDs(rec *vk.Rec, ci int, r *vk.Rand) {
 	const G = 16
-	per := vk.N(4000, 50000)
+	per := vk.N(6500, 50000) // 16 goroutines x 6500 > 2^16 ids per case
 	ssids := []message.Ssid{{1, 2, 3}, {1, 2, 3}, {9, 8}, {1, 2, 3}}
 	type idt struct {
 		id     message.ID
@@ -370,5 +373,56 @@ func c19Peer(rec *vk.Rec, ci int, r *vk.Rand) {
 	rec.Case(vk.Hash("peer", G, per, len(snd.frames)), true)
 	if rec.WantSample() {
 		rec.Sample(map[string]interface{}{"kind": "peer", "senders": G, "messages_each": per, "frames": len(snd.frames)})
+	}
+}
+
+// c19EncodeConc: many goroutines encode and decode their own large frames and messages at the same time
+// (the encoders come from one shared pool).
+func c19EncodeConc(rec *vk.Rec, ci int, r *vk.Rand) {
+	G := r.Range(8, 24)
+	rounds := vk.N(6, 40)
+	var wg sync.WaitGroup
+	var mu sync.Mutex
+	bad := ""
+	for g := 0; g < G; g++ {
+		gr := vk.NewRand(vk.Seed(), fmt.Sprintf("C19enc-%d", g), ci)
+		wg.Add(1)
+		go func(g int, gr *vk.Rand) {
+			defer wg.Done()
+			k := gr.Range(100, 400)
+			f := make(message.Frame, 0, k)
+			for i := 0; i < k; i++ {
+				f = append(f, message.Message{ID: message.ID(fmt.Sprintf("g%02d-%06d-0123456789", g, i)), Channel: []byte(fmt.Sprintf("c/%d/", g)), Payload: bytes.Repeat([]byte{byte('a' + g%26)}, gr.Range(500, 2500)), TTL: uint32(i)})
+			}
+			for rd := 0; rd < rounds; rd++ {
+				back, err := message.DecodeFrame(f.Encode())
+				okk := err == nil && len(back) == len(f)
+				for i := 0; okk && i < len(f); i++ {
+					okk = msgEq(&f[i], &back[i])
+				}
+				if okk {
+					m := f[gr.Intn(len(f))]
+					bm, err := message.DecodeMessage(m.Encode())
+					okk = err == nil && msgEq(&m, &bm)
+				}
+				if !okk {
+					mu.Lock()
+					if bad == "" {
+						bad = fmt.Sprintf("goroutine %d round %d: frame of %d messages did not survive Encode/Decode while %d other goroutines were encoding (err=%v, decoded %d)", g, rd, len(f), G-1, err, len(back))
+					}
+					mu.Unlock()
+					return
+				}
+			}
+		}(g, gr)
+	}
+	wg.Wait()
+	rec.Add("concurrent_frame_roundtrips", int64(G*rounds))
+	rec.Case(vk.Hash("encconc", G, rounds, ci), true)
+	if bad != "" {
+		rec.Violation(ci, "frame-roundtrip-concurrent", bad, nil)
+	}
+	if rec.WantSample() {
+		rec.Sample(map[string]interface{}{"kind": "concurrent-encode", "goroutines": G, "rounds": rounds})
 	}
 }
